@@ -249,3 +249,82 @@ theorem save_reloaded (io : FloatIO F) (c : Cache F) (hs1 : 1 ≤ c.sl) :
   simp only [Cache.save, filter_keepLive c.sl hs1]
 
 end Vita.C11
+
+namespace Vita.C11
+variable {F : Type}
+
+theorem Cache.reach_fresh (io : FloatIO F) (bits : Nat) (hb : 2 ^ bits ≤ U64) :
+    (Cache.fresh bits : Cache F).Reach io := by
+  refine ⟨⟨by simp [Cache.fresh], by simp [Cache.fresh], by simp [Cache.fresh, U32], hb, ?_⟩, ?_⟩
+  · intro i s hs hl
+    simp only [Cache.fresh] at hs hl
+    have := List.mem_of_getElem? hs
+    simp only [List.mem_replicate] at this
+    rw [this.2] at hl
+    simp [Slot.live] at hl
+  · intro s hs
+    simp only [Cache.fresh, List.mem_replicate] at hs
+    rw [hs.2]; simp [Cache.fresh]
+
+theorem Cache.reach_insert (io : FloatIO F) (c : Cache F) (hc : c.Reach io) (h : Hash) (f : List F)
+    (hh : h.ok) (hf : Fitness.ok io f) : (c.insert h f).Reach io := by
+  obtain ⟨⟨hlen, hs1, hsU, hsz, hinv⟩, hle⟩ := hc
+  refine ⟨⟨by simp [Cache.insert, hlen], hs1, hsU, hsz, ?_⟩, ?_⟩
+  · intro i s hs hl
+    simp only [Cache.insert] at hs hl
+    by_cases hi : slotIndex c.bits h = i
+    · subst hi
+      rw [List.getElem?_set_self (by rw [hlen]; exact Nat.mod_lt _ (Nat.pow_pos (by decide)))] at hs
+      cases hs
+      exact ⟨rfl, hh, hf⟩
+    · rw [List.getElem?_set_ne hi] at hs
+      exact hinv i s hs hl
+  · intro s hs
+    simp only [Cache.insert] at hs ⊢
+    rcases List.mem_or_eq_of_mem_set hs with h1 | h1
+    · exact hle s h1
+    · subst h1; exact Nat.le_refl _
+
+theorem Cache.reach_clear (io : FloatIO F) (c : Cache F) (hc : c.Reach io) (hlt : c.sl + 1 ≤ U32) :
+    c.clear.Reach io := by
+  obtain ⟨⟨hlen, hs1, hsU, hsz, hinv⟩, hle⟩ := hc
+  refine ⟨⟨hlen, by simp [Cache.clear], hlt, hsz, ?_⟩, ?_⟩
+  · intro i s hs hl
+    simp only [Cache.clear] at hs hl
+    have := hle s (List.mem_of_getElem? hs)
+    simp [Slot.live] at hl
+    omega
+  · intro s hs
+    have := hle s hs
+    simp only [Cache.clear]; omega
+
+theorem Cache.reach_clearKey (io : FloatIO F) (c : Cache F) (hc : c.Reach io) (h : Hash) :
+    (c.clearKey h).Reach io := by
+  obtain ⟨⟨hlen, hs1, hsU, hsz, hinv⟩, hle⟩ := hc
+  unfold Cache.clearKey
+  cases hg : c.table[slotIndex c.bits h]? with
+  | none => exact ⟨⟨hlen, hs1, hsU, hsz, hinv⟩, hle⟩
+  | some s0 =>
+    refine ⟨⟨by simp [hlen], hs1, hsU, hsz, ?_⟩, ?_⟩
+    · intro i s hs hl
+      simp only at hs hl
+      by_cases hi : slotIndex c.bits h = i
+      · subst hi
+        have hlt : slotIndex c.bits h < c.table.length := by
+          cases hd : decide (slotIndex c.bits h < c.table.length) with
+          | true => simpa using hd
+          | false =>
+            have : c.table.length ≤ slotIndex c.bits h := by simpa using hd
+            rw [List.getElem?_eq_none this] at hg; cases hg
+        rw [List.getElem?_set_self hlt] at hs
+        cases hs
+        simp [Slot.live, Hash.isEmpty] at hl
+      · rw [List.getElem?_set_ne hi] at hs
+        exact hinv i s hs hl
+    · intro s hs
+      simp only at hs ⊢
+      rcases List.mem_or_eq_of_mem_set hs with h1 | h1
+      · exact hle s h1
+      · subst h1; exact hle s0 (List.mem_of_getElem? hg)
+
+end Vita.C11
